@@ -135,6 +135,17 @@ pub struct Logical {
     pub dedup: bool,
     /// seed for source perturbation and concat order
     pub aux_seed: u64,
+    pub opts: LogicalOpts,
+}
+
+/// Rarely used variations of the packaging.
+#[derive(Clone, Copy, Debug, Default)]
+pub struct LogicalOpts {
+    /// (loose / concat) record an empty location for every pack: packs can then only be found
+    /// by uuid inside the file at hand, so this only makes sense with `Packaging::Concat`
+    pub empty_locations: bool,
+    /// (concat) store the first content pack twice in the container
+    pub concat_dup: bool,
 }
 
 /// What was written, as the generator knows it (the reference model).
@@ -332,6 +343,7 @@ pub fn gen_logical(rng: &mut Rng, p: &GenParams) -> Logical {
         schema,
         dedup: false,
         aux_seed: rng.next_u64(),
+        opts: Default::default(),
     }
 }
 
@@ -729,11 +741,12 @@ fn build_inner(
             drop(dir_file);
 
             let mut mpc = creator::ManifestPackCreator::new(vendor, Default::default());
-            mpc.add_pack(dir_data, format!("{name}.jbkd"));
+            let loc = |s: String| if logical.opts.empty_locations { String::new() } else { s };
+            mpc.add_pack(dir_data, loc(format!("{name}.jbkd")));
             for (data, path) in pack_datas {
                 mpc.add_pack(
                     data,
-                    path.file_name().unwrap().to_str().unwrap().to_string(),
+                    loc(path.file_name().unwrap().to_str().unwrap().to_string()),
                 );
             }
             let man_path = dir.join(format!("{name}.jbkm"));
@@ -754,6 +767,12 @@ fn build_inner(
                 let mut order = files.clone();
                 let mut rng = Rng::derive(logical.aux_seed, "concat-order", 0);
                 rng.shuffle(&mut order);
+                if logical.opts.concat_dup {
+                    // the first content pack once more, somewhere before the last pack
+                    let dup = pack_files[&1].clone();
+                    let at = rng.usize_below(order.len());
+                    order.insert(at, dup);
+                }
                 let out = dir.join(format!("{name}.jbk"));
                 jbk::tools::concat(&order, utf8(&out))?;
                 for f in &files {
